@@ -2,6 +2,7 @@ package fanspeedpb
 
 import (
 	"context"
+	"math"
 
 	"google.golang.org/grpc"
 	"google.golang.org/protobuf/proto"
@@ -39,7 +40,8 @@ func (s *ModelServer) UpdateFanSpeed(_ context.Context, request *traits.UpdateFa
 			oldVal := old.(*traits.FanSpeed)
 			newVal := new.(*traits.FanSpeed)
 			newVal.Percentage += oldVal.Percentage
-			newVal.PresetIndex += oldVal.PresetIndex
+			// (the sum of two int32 may not fit one: a step past either end of the presets stays past that end)
+			newVal.PresetIndex = int32(min(max(int64(newVal.PresetIndex)+int64(oldVal.PresetIndex), math.MinInt32), math.MaxInt32))
 			// todo: should we support setting the preset relatively if we're between presets?
 		}
 	}))
